@@ -54,24 +54,25 @@ U('C06', 'C06_reextent.cpp', defines=dict(DIM=2, NB=2, ELT='Tr', SLOT_CELLS=4), 
 
 # ---- C08 element lifetime and storage accounting (ghost bitmap + ledger; C04/C06 harnesses re-used with the tracked element type)
 U('C08', 'C08_ctor.cpp', defines=dict(DIM=1, NB=2, ELT='Tr', SLOT_CELLS=3), unwind=6, timeout=1800, heap=128, slots=2)
-U('C08', 'C08_ctor.cpp', defines=dict(DIM=2, NB=2, ELT='Tr', SLOT_CELLS=4), unwind=7, timeout=1800, heap=128, slots=2)
+U('C08', 'C08_ctor.cpp', defines=dict(DIM=2, NB=2, ELT='Tr', SLOT_CELLS=4), unwind=7, timeout=1800, heap=128, slots=2, tier='thorough')
 U('C08', 'C08_ctor.cpp', name='C08_nowrite_DIM1', defines=dict(DIM=1, NB=3, ELT='int', SLOT_CELLS=3, NOWRITE=1), entries=['sizing_ctor_does_not_write', 'reextent_does_not_write_new_elements'], unwind=6, timeout=1800, heap=128)
 U('C08', 'C08_ctor.cpp', name='C08_nowrite_DIM2', defines=dict(DIM=2, NB=2, ELT='int', SLOT_CELLS=4, NOWRITE=1), entries=['sizing_ctor_does_not_write', 'reextent_does_not_write_new_elements'], unwind=7, timeout=1800, heap=128)
-U('C08', 'C04_value.cpp', name='C08_C04_value_DIM1_Tr', defines=dict(DIM=1, NB=2, ELT='Tr', SLOT_CELLS=3), unwind=5, timeout=1800, heap=128, slots=2)
+U('C08', 'C04_value.cpp', name='C08_C04_value_DIM1_Tr', defines=dict(DIM=1, NB=2, ELT='Tr', SLOT_CELLS=3), unwind=5, timeout=1800, heap=128, slots=2, tier='thorough')
 U('C08', 'C06_reextent.cpp', name='C08_C06_reextent_DIM1_Tr', defines=dict(DIM=1, NB=2, ELT='Tr', SLOT_CELLS=3), unwind=6, timeout=1800, heap=128, slots=2)
 U('C08', 'C06_reextent.cpp', name='C08_C06_reextent_DIM2_Tr', defines=dict(DIM=2, NB=2, ELT='Tr', SLOT_CELLS=4), unwind=7, timeout=3600, heap=128, slots=2, tier='thorough')
 
 # ---- C09 failure injection: symbolic fault ordinal, real C++ exceptions lowered by ll2c
-U('C09', 'C09_fault.cpp', defines=dict(DIM=1, NB=2, ELT='Tr', SLOT_CELLS=3, KMAX=10), unwind=6, timeout=1800, heap=128, slots=2)
-U('C09', 'C09_fault.cpp', defines=dict(DIM=2, NB=2, ELT='Tr', SLOT_CELLS=4, KMAX=16), unwind=7, timeout=3600, heap=128, slots=3, tier='thorough')
+KF09 = {e + '_kf': 'C09-ctor-leak' for e in ('ctor_extents_value', 'ctor_extents', 'ctor_copy', 'ctor_from_view', 'assign_from_view')}
+U('C09', 'C09_fault.cpp', defines=dict(DIM=1, NB=2, ELT='Tr', SLOT_CELLS=3, KMAX=10), unwind=6, timeout=1800, heap=128, slots=2, kf=KF09)
+U('C09', 'C09_fault.cpp', defines=dict(DIM=2, NB=2, ELT='Tr', SLOT_CELLS=4, KMAX=16), unwind=7, timeout=3600, heap=128, slots=3, tier='thorough', kf=KF09)
 
 # ---- C10 allocator identity and propagation: 8 trait combinations (compile-time) x symbolic instance ids
 for cca in (0, 1):
     for cma in (0, 1):
         for cs in (0, 1):
             quick = (cca, cma, cs) in ((0, 0, 0), (1, 1, 1), (0, 1, 0))
-            U('C10', 'C10_alloc.cpp', defines=dict(DIM=1, NB=2, POCCA=cca, POCMA=cma, POCS=cs, SLOT_CELLS=2), unwind=5, timeout=1800, heap=128, tier='quick' if quick else 'thorough')
-U('C10', 'C10_alloc.cpp', defines=dict(DIM=2, NB=2, POCCA=0, POCMA=0, POCS=0, SLOT_CELLS=4), unwind=7, timeout=3600, heap=128, tier='thorough')
+            U('C10', 'C10_alloc.cpp', defines=dict(DIM=1, NB=2, CFG_POCCA=cca, CFG_POCMA=cma, CFG_POCS=cs, SLOT_CELLS=2), unwind=5, timeout=1800, heap=128, tier='quick' if quick else 'thorough')
+U('C10', 'C10_alloc.cpp', defines=dict(DIM=2, NB=2, CFG_POCCA=0, CFG_POCMA=0, CFG_POCS=0, SLOT_CELLS=4), unwind=7, timeout=3600, heap=128, tier='thorough')
 
 # ---- C12 projection views
 U('C12', 'C12_project.cpp', defines=dict(DIM=1, NB=3, SB=4, MEMSZ2=16), unwind=6, timeout=900, heap=256)
@@ -80,7 +81,9 @@ U('C12', 'C12_project.cpp', defines=dict(DIM=3, NB=2, SB=3, MEMSZ2=32), unwind=1
 
 # ---- C13 BLAS adaptor, call-contract level (recorded Fortran calls + address-map oracle); a rejection (exception / assertion) is an allowed outcome
 BLAS_STUBS = [r'_ZNSt7__cxx1112basic_string', r'_ZNSt11logic_error', r'_ZNSt13runtime_error', r'_ZSt.*to_string', r'_ZNSt9exception', r'vsnprintf', r'_ZNKSt', r'_ZStplI', r'_ZSt9terminatev__', r'__cxa_guard', r'_ZNSt8ios_base', r'__cxa_atexit', r'_ZNSo', r'_ZSt4cerr', r'_ZSt16__ostream_insert', r'_ZNSt6locale', r'_ZSt4endl', r'_ZNSt9basic_ios', r'_ZNKSt5ctype', r'_ZSt16__throw_bad_castv']
-U('C13', 'C13_blas.cpp', defines=dict(NB=3, PAD=2), unwind=6, timeout=1800, heap=1024, stubs=BLAS_STUBS, objbits=12)
+KF13 = {'gemm_unit_l%d' % l: 'C13-gemm-unit-extent' for l in range(8)}
+U('C13', 'C13_blas.cpp', defines=dict(NB=2, PAD=2), unwind=6, timeout=1800, heap=1024, stubs=BLAS_STUBS, objbits=12, inline=400, slots=2, kf=KF13)
+U('C13', 'C13_blas.cpp', defines=dict(NB=3, PAD=2), unwind=6, timeout=3600, heap=1024, stubs=BLAS_STUBS, objbits=12, inline=400, slots=3, kf=KF13, tier='thorough')
 
 # ---- C15 FFTW adaptor, call-contract level (recorded guru plan)
 FFTW_STUBS = [r'fftw_cleanup', r'fftw_cost', r'fftw_flops', r'fftw_init_threads', r'fftw_plan_with_nthreads', r'fftw_make_planner_thread_safe', r'fftw_cleanup_threads', r'_ZNSt8ios_base', r'__cxa_atexit', r'__cxa_guard', r'omp_get', r'_ZNSt6thread', r'sysconf', r'_ZNSt7__cxx11', r'_ZNSt11logic_error', r'_ZNSt13runtime_error', r'_ZSt.*to_string']
@@ -89,13 +92,39 @@ for d in (1, 2, 3):
 U('C15', 'C15_fftw.cpp', defines=dict(DIM=4, NB=2, SB=3, MEMSZ2=48), unwind=7, timeout=3600, heap=1024, stubs=FFTW_STUBS, tier='thorough')
 
 # ---- C18 MPI messages, call-contract level (typemap model over recorded MPI_Type_* calls)
+MPI_LIBS = ['-L/usr/lib/x86_64-linux-gnu/openmpi/lib', '-lmpi']   # only for the predefined handle objects (ompi_mpi_int, ...); MPI_Type_* are the harness's own
 MPI_STUBS = [r'_ZNSt8ios_base', r'__cxa_atexit', r'_ZNSt7__cxx11', r'_ZNSt11logic_error']
 for d in (1, 2, 3):
-    U('C18', 'C18_mpi.cpp', defines=dict(DIM=d, NB=3, SB=4 if d < 3 else 3, MEMSZ2=40), unwind=6, timeout=1200, heap=256, stubs=MPI_STUBS, cflags=['-I/usr/lib/x86_64-linux-gnu/openmpi/include'])
-U('C18', 'C18_mpi.cpp', name='C18_mpi_double_DIM2', defines=dict(DIM=2, NB=3, SB=4, MEMSZ2=40, ELEM='double'), unwind=6, timeout=1200, heap=256, stubs=MPI_STUBS, cflags=['-I/usr/lib/x86_64-linux-gnu/openmpi/include'])
-U('C18', 'C18_mpi.cpp', defines=dict(DIM=4, NB=2, SB=3, MEMSZ2=48), unwind=7, timeout=3600, heap=256, stubs=MPI_STUBS, cflags=['-I/usr/lib/x86_64-linux-gnu/openmpi/include'], tier='thorough')
+    U('C18', 'C18_mpi.cpp', defines=dict(DIM=d, NB=3, SB=4 if d < 3 else 3, MEMSZ2=40), unwind=6, timeout=1200, heap=256, stubs=MPI_STUBS, native_libs=MPI_LIBS, cflags=['-I/usr/lib/x86_64-linux-gnu/openmpi/include'])
+U('C18', 'C18_mpi.cpp', name='C18_mpi_double_DIM2', defines=dict(DIM=2, NB=3, SB=4, MEMSZ2=40, ELEM='double'), unwind=6, timeout=1200, heap=256, stubs=MPI_STUBS, native_libs=MPI_LIBS, cflags=['-I/usr/lib/x86_64-linux-gnu/openmpi/include'])
+U('C18', 'C18_mpi.cpp', defines=dict(DIM=4, NB=2, SB=3, MEMSZ2=48), unwind=7, timeout=3600, heap=256, stubs=MPI_STUBS, native_libs=MPI_LIBS, cflags=['-I/usr/lib/x86_64-linux-gnu/openmpi/include'], tier='thorough')
 
 # ---- C14 LAPACK adaptor, call-contract level
 LAPACK_STUBS = [r'_ZNSt7__cxx11', r'_ZNSt13runtime_error', r'_ZNSt11logic_error', r'_ZSt.*to_string', r'vsnprintf', r'_ZNSt8ios_base', r'__cxa_atexit', r'_ZStplI', r'_ZNKSt', r'_ZN9__gnu_cxx', r'_ZNSt9exception']
 for w in (1, 2, 3):
     U('C14', 'C14_lapack.cpp', defines=dict(NB=3, PAD=2, SLOT_CELLS=4, MAXBLK=2, WHICH=w), unwind=6, timeout=1200, heap=1024, stubs=LAPACK_STUBS)
+
+# ---- C17 serialization, library half with a symbolic stub archive
+U('C17', 'C17_serial.cpp', defines=dict(DIM=1, NB=3, ELT='int', SLOT_CELLS=3), unwind=6, timeout=1800, heap=128)
+U('C17', 'C17_serial.cpp', defines=dict(DIM=2, NB=2, ELT='int', SLOT_CELLS=4), unwind=7, timeout=1800, heap=128, slots=2)
+U('C17', 'C17_serial.cpp', defines=dict(DIM=1, NB=2, ELT='Tr', SLOT_CELLS=3), unwind=6, timeout=1800, heap=128, slots=2, tier='thorough')
+
+# ---- C11 independence of the pointer type: the harness programs of C01/C02/C05/C07 instantiated over a minimal fancy pointer (VF_FANCY=1: no
+# conversion to/from T*) and a bounds-tracking pointer (VF_FANCY=2: asserts lo <= p < hi on every dereference).  Compilation of the
+# instantiation is the type checker's verdict that no raw-address assumption is needed; the solver proves the same functional specification
+# as for raw pointers (hence element-for-element the same observable results) and that no bounds assertion can fail.
+for f in (1, 2):
+    U('C11', 'C01_step.cpp', name='C11_f%d_C01_step_DIM2' % f, defines=dict(DIM=2, NB=3, SB=4, VF_FANCY=f), unwind=6, timeout=1200)
+    U('C11', 'C02_iter.cpp', name='C11_f%d_C02_iter_DIM2' % f, defines=dict(DIM=2, NB=3, SB=4, VF_FANCY=f), unwind=6, timeout=1200)
+    U('C11', 'C05_assign.cpp', name='C11_f%d_C05_assign_DIM1' % f, defines=dict(DIM=1, NB=3, SB=4, MEMSZ2=24, VF_ROOT_CELLS=24, VF_FANCY=f), unwind=6, timeout=1200, skip_entries=['array_ref_flat'])
+    U('C11', 'C07_compare.cpp', name='C11_f%d_C07_compare_DIM1' % f, defines=dict(DIM=1, NB=3, SB=4, MEMSZ2=12, VF_ROOT_CELLS=12, VF_FANCY=f), unwind=6, timeout=1200, skip_entries=['eq_array_ref'])
+    U('C11', 'C05_assign.cpp', name='C11_f%d_C05_assign_DIM2' % f, defines=dict(DIM=2, NB=2, SB=3, MEMSZ2=16, VF_ROOT_CELLS=16, VF_FANCY=f), unwind=6, timeout=1800, skip_entries=['array_ref_flat'], tier='thorough')
+
+# ---- C03 standard algorithms on view ranges (differential against plain arrays); libstdc++ large-range branches stubbed (dead for <= 16 elements)
+ALGO_STUBS = [r'__introsort_loop', r'__merge_adaptive', r'__merge_without_buffer', r'__stable_sort_adaptive', r'_Temporary_buffer', r'get_temporary_buffer', r'return_temporary_buffer']
+U('C03', 'C03_algo.cpp', defines=dict(RANGE=1, NB=4, SB=3, MEMSZ2=12, VF_ROOT_CELLS=12), unwind=7, timeout=500, heap=512, stubs=ALGO_STUBS)
+U('C03', 'C03_algo.cpp', defines=dict(RANGE=2, NB=2, SB=3, MEMSZ2=12, VF_ROOT_CELLS=12), unwind=7, timeout=500, heap=512, stubs=ALGO_STUBS)
+U('C03', 'C03_algo.cpp', defines=dict(RANGE=2, NB=3, SB=4, MEMSZ2=24, VF_ROOT_CELLS=24), unwind=12, timeout=7200, heap=512, stubs=ALGO_STUBS, tier='thorough', backend='kissat')
+# C19 also runs the C01 step family itself (every view-forming operation applied to views with symbolic index bases in [-2,2])
+for d in (1, 2):
+    U('C19', 'C01_step.cpp', name='C19_step_rebased_DIM%d' % d, defines=dict(DIM=d, NB=3, SB=4, FB=2), unwind=6, timeout=900)
